@@ -83,8 +83,7 @@ def worker(ctx):
                     sut_compiler.render_file(proto, lang, od, optimize=opt)
                     ref_dig[(lang, opt)] = digest_dir(od)
             except Exception as e:
-                res.count("skipped_compile_error")
-                res.observe("compile_error_classes", f"{type(e).__name__}: {str(e)[:80]}")
+                harness.compile_failed(res, e, wit)
                 continue
             res.case(gen.is_nontrivial(gen.schema_signature(root)), wit["schema"])
             res.sample({"schema": wit["schema"], "modes": [f"{l}{' -O' if o else ''}" for l, o in modes]}, 2)
